@@ -149,6 +149,36 @@ CHECKS = {
              'evaluations for any entry point = inconclusive).',
         note='Trusted: frame canon (python ids + history lengths); icontract 2.7.3.',
         design='§3 C17, §6'),
+    'C18': dict(
+        category='exploration',
+        technique='independent leaf enumeration + own path printer vs. the flattened printers; '
+                  'write-back of every printed path through the override parser compared with a '
+                  'predicted single substitution; left-fold FlagModel with logging fiddlers; '
+                  'serializer round trip; CallExpression literal round trip with import canary',
+        text='Held on generated in-domain configurations, directive sequences (fed in one or '
+             'several parse calls) and call expressions.',
+        note='Trusted: own path follower; left fold of directives as specification.',
+        design='§3 C18'),
+    'C19': dict(
+        category='exploration',
+        technique='deterministic line-level thread scheduler on sys.monitoring (token passing, '
+                  'switch only at statement starts inside fiddle and explicit yields); '
+                  'single-preemption enumeration (grid in quick, ALL in thorough), 2-preemption '
+                  'grid, PCT and random walks, free-running stress; per-thread result == solo result',
+        text='Schedule exploration bounded as stated in the evidence (exhaustive: true only for '
+             'the single-preemption sub-space in the thorough tier).',
+        note='Trusted: fresh callable / exception-class objects per run make caches cold so that '
+             'index-based preemption placement is well defined.',
+        design='§3 C19, §4'),
+    'C20': dict(
+        category='exploration',
+        technique='metamorphic monitor: build(T(c)) vs build(c) by canonical form for 9 '
+                  'transformations, == and defaults-canon preservation, idempotence/completeness of '
+                  'materialize_defaults, serializability preservation',
+        text='Held on generated configurations where the transformation actually changed something '
+             '(counted per transformation).',
+        note='Trusted: vf.canon; partial-with-default-bindings identified with the bare callable.',
+        design='§3 C20'),
     'C03': dict(
         category='exploration',
         technique='lock-step reference-model monitor (ArgModel) over generated edit histories '
@@ -161,7 +191,7 @@ CHECKS = {
         design='§3 C03'),
 }
 
-PENDING_REASON = 'check not built yet in this session (design in DESIGN.md §3); will be claimed when its monitor exists'
+PENDING_REASON = 'not claimed'
 
 
 def main():
